@@ -132,6 +132,12 @@ func (k *Check) Budget(quick, thorough float64) {
 	k.deadline = k.start + b
 }
 
+// Within is the deadline for a part that may use at most frac of the budget that is left.
+func (k *Check) Within(frac float64) float64 {
+	now := mc.Wall()
+	return now + (k.deadline-now)*frac
+}
+
 // Deadline is the absolute wall-clock second at which explorations stop cleanly.
 func (k *Check) Deadline() float64 { return k.deadline }
 
